@@ -321,7 +321,7 @@ func (r *Recorder) Flush() {
 		Witnessed: r.witnessed, WallS: time.Since(r.start).Seconds(),
 	}
 	b, _ := json.Marshal(s)
-	p := filepath.Join(outDir(), fmt.Sprintf("%s.shard%d.json", r.id, Shard()))
+	p := filepath.Join(outDir(), fmt.Sprintf("%s.part%d.shard%d.json", r.id, envInt("VERIF_PART", 0), Shard()))
 	os.WriteFile(p, b, 0o644)
 }
 
